@@ -642,7 +642,7 @@ func GenPair(seed uint64, o GenOpts) *Pair {
 	if o.ForceKindSwap > 0 {
 		g.kindSwapN(o.ForceKindSwap-1, o.ForceRename)
 	} else if o.KindSwaps && r.Chance(0.6) {
-		g.kindSwapN(r.Intn(10), r.Chance(0.4))
+		g.kindSwapN(r.Intn(11), r.Chance(0.4))
 	}
 	return p
 }
@@ -712,6 +712,14 @@ func (g *genState) kindSwapN(which int, withRename bool) {
 		p.Old.PutSymlink("ks/s2fd", "elsewhere")
 		p.New.PutFile("ks/s2fd", d)
 		p.feat("kind:symlink->file(copy-of-old-file)")
+	case 9: // symlink to an EXISTING directory -> real directory with files (the link's target stays)
+		d1, d2 := small(), small()
+		p.Old.PutFile("ks/live-target/data.bin", d1)
+		p.New.PutFile("ks/live-target/data.bin", d1)
+		p.Old.PutSymlink("ks/s2d-live", "live-target")
+		p.New.PutFile("ks/s2d-live/data.bin", d2)
+		p.New.PutFile("ks/s2d-live/extra.txt", small())
+		p.feat("kind:symlink(to-existing-dir)->dir")
 	default: // symlink -> dir
 		p.Old.PutSymlink("ks/s2d", "elsewhere")
 		p.New.PutFile("ks/s2d/c.bin", small())
